@@ -512,6 +512,18 @@ func vxC07DrawW(t *rapid.T) *vxC07WCase {
 		c.Fault.Kind = "none"
 		return c
 	}
+	if rapid.IntRange(0, 39).Draw(t, "crowd") == 0 {
+		// a crowd: more than a thousand small frames queued within one (long) coalescing window
+		c.Writer, c.WindowUS, c.TimeoutMS = "coalesce", 50000, 3000
+		if c.Proto < 3 {
+			c.Proto = 3 // the frames are told apart by their stream id
+		}
+		for i, n := 0, rapid.SampledFrom([]int{600, 1024, 1025, 1100, 1500}).Draw(t, "crowd_n"); i < n; i++ {
+			c.Frames = append(c.Frames, vxC07WFrame{Size: 9 + i%5})
+		}
+		c.Fault.Kind = "none"
+		return c
+	}
 	n := rapid.SampledFrom([]int{1, 2, 2, 2, 3, 3, 4, 5, 6, 8, 10, 12}).Draw(t, "n")
 	c.Fault.Kind = rapid.SampledFrom([]string{"none", "cutat", "cutat", "rule", "rule", "rule", "stall-deadline", "stall-release", "stall-release"}).Draw(t, "fault")
 	var sizes []int
@@ -942,6 +954,9 @@ func TestVxC07Writers(t *testing.T) {
 				}
 				note(o)
 				k.Class(wr + " " + c.Fault.Kind)
+				if len(c.Frames) >= 600 {
+					k.Class(fmt.Sprintf("crowd of %d writers, largest flush %d frames", len(c.Frames), o.wire.MaxFlush))
+				}
 				if o.late && (o.wire.Torn != nil || o.wire.ZeroFail > 0) {
 					k.Class("late callers after a failed Write and an idle window")
 				}
